@@ -232,10 +232,13 @@ func (config Config) NewSession(nic string) (session *Session, err error) {
 // Close stop all session goroutines and close notification channel and the underlaying raw connection.
 // The session is no longer valid after calling Close().
 func (h *Session) Close() {
+	h.mutex.Lock() // only one Close closes the channels; senders test closed under the read lock
 	if h.closed {
+		h.mutex.Unlock()
 		return
 	}
 	h.closed = true
+	h.mutex.Unlock()
 	close(h.closeChan)
 	close(h.C)
 	h.Conn.Close()
@@ -269,7 +272,10 @@ func (h *Session) ReadFrom(b []byte) (int, net.Addr, error) {
 			}
 			continue
 		}
-		if h.closed {
+		h.mutex.RLock()
+		closed := h.closed
+		h.mutex.RUnlock()
+		if closed {
 			return n, addr, ErrHandlerClosed
 		}
 		return n, addr, err
